@@ -442,7 +442,7 @@ class _FnValueCall:
         self.fn = self.res = self.name = key
         m = re.match(r"^<.* as ([^<>]+(?:<.*>)?)>::(\w+)$", key)
         if m:
-            self.fn = "%s::%s" % (strip_generics(m.group(1)), m.group(2))
+            self.fn = "%s::%s" % (re.sub(r"<.*>$", "", strip_generics(m.group(1))), m.group(2))
         self.args, self.dest, self.target, self.line, self.exp = [], None, cs.target, cs.line, cs.exp
         self.gbodies, self.gargs = [], []
 
@@ -705,11 +705,20 @@ class Interp:
             return ok(inner)
         if fn in ("core::net::ip_addr::Ipv4Addr::octets", "core::net::ip_addr::Ipv6Addr::octets") and d and d[0].k == "ip":
             return Val("list", [vint(x) for x in d[0].v])
+        if d and d[0].k == "ip" and (fn in ("core::net::ip_addr::Ipv4Addr::to_bits", "core::net::ip_addr::Ipv6Addr::to_bits")
+                                     or (fn == "core::convert::From::from" and ("<impl core::convert::From<core::net::ip_addr::Ipv" in nm) and "for u" in nm)):
+            return vint(int.from_bytes(bytes(d[0].v), "big"))
+        if fn == "core::net::ip_addr::Ipv6Addr::segments" and d and d[0].k == "ip" and len(d[0].v) == 16:
+            return Val("list", [vint((d[0].v[2 * i] << 8) | d[0].v[2 * i + 1]) for i in range(8)])
+        if fn in ("core::str::<impl str>::chars",) and d and d[0].k == "str":
+            return Val("iter", [Val("char", ch) for ch in d[0].v])
+        if fn == "core::convert::From::from" and d and d[0].k == "char" and "alloc::string::String" in nm:
+            return vstr(d[0].v)
         if m in ("to_ne_bytes", "to_le_bytes", "to_be_bytes") and "<impl u8>" in fn and d and d[0].k == "int":
             return Val("list", [vint(d[0].v & 0xff)])
         if m == "join" and fn.startswith("alloc::slice::") and len(d) > 1 and d[0].k in ("list", "tuple") and d[1].k in ("str", "char"):
             parts = [x.deref() for x in d[0].v]
-            if all(x.k == "str" for x in parts):
+            if all(x.k in ("str", "char") for x in parts):
                 return vstr(d[1].v.join(x.v for x in parts))
         return None
 
